@@ -33,6 +33,8 @@ var c15Progs = []struct{ name, src string }{
 	{"argcall", "func g(x) {\n  return x * 2\n}\nfunc f(x) {\n  return x + 1\n}\nr := f(g(2))\nlog(r)"},
 	// a thread suspended inside nested block scopes of a function
 	{"blocks", "func f(x) {\n  if x > 0 {\n    let y := x\n    for i in range(1, 2) {\n      y := y + i\n    }\n    return y\n  }\n}\na := f(1)"},
+	// recursion deeper than the initial capacity (10) of the debugger's per-thread call stack slices
+	{"deeprec", "func down(n) {\n  if n == 0 {\n    return 0\n  }\n  return 1 + down(n - 1)\n}\nr := down(11)\nlog(r)"},
 }
 
 func c15Lines(src string) int { return strings.Count(src, "\n") + 1 }
